@@ -532,3 +532,54 @@ func VerifH_c12_unblock_anytime() {
 		vReleaseWaiter(cs)
 	}
 }
+
+// VerifH_c11_signals: whoever puts n elements into a list that clients are
+// waiting on must wake n of them (a woken waiter takes one element; waiters
+// can be queued on a momentarily non-empty list: woken but not yet retried,
+// or several commands in one transaction).  Two waiters are registered on k
+// through the real wait table, one command runs, and the number of
+// signalled waiters must be min(2, elements that arrived in k), oldest
+// waiter first.  This is the per-command half of "no lost wake-up"; the
+// protocol half (what a woken waiter does) is VerifH_c11_blpop.
+func VerifH_c11_signals() {
+	VerifSetup()
+	cs := vNewClient()
+	ds := cs.ds
+	vCmd(cs, "RPUSH", "src", "s1", "s2", "s3")
+	vCmd(cs, "SADD", "st", "3", "1")
+	existing := vBool("k-exists") // k holds one element already (waiters woken but not yet retried)
+	if existing {
+		vCmd(cs, "RPUSH", "k", "x")
+	}
+	w1 := ds.enterListBlock("k")
+	w2 := ds.enterListBlock("k")
+	type tc struct {
+		args   []string
+		needsK bool // only meaningful when k exists
+		adds   int  // elements that arrive in k
+	}
+	cases := []tc{
+		{[]string{"RPUSH", "k", "a"}, false, 1}, {[]string{"RPUSH", "k", "a", "b"}, false, 2}, {[]string{"LPUSH", "k", "a"}, false, 1},
+		{[]string{"LPUSH", "k", "a", "b", "c"}, false, 3}, {[]string{"RPUSHX", "k", "a"}, true, 1}, {[]string{"LPUSHX", "k", "a", "b"}, true, 2},
+		{[]string{"LINSERT", "k", "BEFORE", "x", "a"}, true, 1}, {[]string{"LINSERT", "k", "AFTER", "x", "a"}, true, 1},
+		{[]string{"LMOVE", "src", "k", "LEFT", "RIGHT"}, false, 1}, {[]string{"RPOPLPUSH", "src", "k"}, false, 1},
+		{[]string{"RENAME", "src", "k"}, false, 3}, {[]string{"COPY", "src", "k", "REPLACE"}, false, 3}, {[]string{"SORT", "st", "STORE", "k"}, false, 2},
+		{[]string{"LSET", "k", "0", "z"}, true, 0}, {[]string{"LREM", "k", "0", "nosuch"}, true, 0}, {[]string{"SET", "other", "1"}, false, 0},
+		{[]string{"RPUSH", "other", "a"}, false, 0}, {[]string{"LRANGE", "k", "0", "-1"}, false, 0},
+	}
+	c := cases[vChoice("case", len(cases))]
+	vAssume(existing || !c.needsK)
+	r := vCmd(cs, c.args...)
+	vAssert("signal-case-command-succeeds", !vIsErr(r))
+	want := c.adds
+	if want > 2 {
+		want = 2
+	}
+	got := len(w1.ready) + len(w2.ready)
+	vAssert("one-waiter-woken-per-arriving-element", got == want)
+	if want == 1 {
+		vAssert("oldest-waiter-woken-first", len(w1.ready) == 1)
+	}
+	ds.leaveListBlock(w1)
+	ds.leaveListBlock(w2)
+}
